@@ -1,5 +1,6 @@
 \* a wrong decision procedure (expected to FAIL): the policy "new" falls back from an expired copy as well
 SPECIFICATION Spec
-CONSTANT Variant = "mutant"
+CONSTANTS MaxRuns = 2
+  Variant = "mutant"
 INVARIANTS C29_FollowsTable C29_RrdpOnlyIfAnnouncedAndEnabled
 CHECK_DEADLOCK FALSE
